@@ -57,6 +57,19 @@ def ev_call(self, e, st):
                     continue
                 yield from construct(self, st1, name, vals, kw, e)
             return
+        if name not in ("len", "isinstance", "abs", "all", "any", "float", "iter", "next", "list", "str", "set", "dict", "deque", "int", "range", "zip", "enumerate", "sorted"):
+            try:
+                fs_h = source.find_function(f"{self.f.mod}:{name}")
+            except (KeyError, FileNotFoundError):
+                fs_h = None
+            if fs_h is not None and isinstance(fs_h.node, ast.FunctionDef):
+                # a module-level helper without a contract: inlined (loop-free, <= 15 statements), as DESIGN §2.5 states
+                for st1, vals, kw in ev_args(self, e, st):
+                    if isinstance(vals, Raise):
+                        yield st1, vals
+                        continue
+                    yield from inline_function(self, st1, fs_h, vals, kw, e)
+                return
         if name == "deque" and not e.args:
             s = st.fork()
             d = self.alloc(s, "deque")
@@ -123,6 +136,24 @@ def ev_call(self, e, st):
                             continue
                         yield from self.call_contract(st2, ck, [base] + vals, kw, e)
                     continue
+            # a private helper method of a repository class without a contract: inlined when small
+            if is_ref(base.ty) and base.ty[1] in models.CLASSES and "src" in models.CLASSES[base.ty[1]] \
+                    and models.field_owner(base.ty[1], f.attr) is None:
+                hmod, hcls = models.CLASSES[base.ty[1]]["src"]
+                try:
+                    fs_h = source.find_function(f"{hmod}:{hcls}.{f.attr}")
+                except (KeyError, FileNotFoundError):
+                    fs_h = None
+                if fs_h is not None:
+                    is_static = any(isinstance(d, ast.Name) and d.id == "staticmethod" for d in fs_h.node.decorator_list)
+                    is_prop = any(isinstance(d, ast.Name) and d.id == "property" for d in fs_h.node.decorator_list)
+                    if not is_prop:
+                        for st2, vals, kw in ev_args(self, e, st1):
+                            if isinstance(vals, Raise):
+                                yield st2, vals
+                                continue
+                            yield from inline_function(self, st2, fs_h, ([] if is_static else [base]) + vals, kw, e)
+                        continue
             for st2, vals in self.ev_list(e.args, st1):
                 if isinstance(vals, Raise):
                     yield st2, vals
@@ -158,6 +189,8 @@ def inline_function(self, st, fs, args, kwargs, node, result_override=None):
     if any(isinstance(x, (ast.For, ast.While)) for b in body for x in ast.walk(b)) or len(body) > 15:
         raise Unsupported(f"callee {fs.key} is too large to inline and has no contract")
     a = fs.node.args
+    if fs.key not in self.notes:
+        self.notes.append(fs.key)        # reported in evidence as "inlined (no contract of its own)"
     names = [x.arg for x in a.args]
     bound = {}
     for nm, v in zip(names, args):
